@@ -135,7 +135,7 @@ def replay(case):
             evs.append(dict(_dict_event("get_follow_set", G2, guard.call(p2.get_follow_set)), via=conv))
     # a grammar object that answered other queries before the parser was built on it
     g6, _, _ = cfgh.make(case["prods"], case["vpool"], case["tpool"])
-    for q in (g6.is_empty, g6.get_generating_symbols, lambda: g6.contains([])):
+    for q in (g6.is_empty, g6.get_generating_symbols, g6.remove_useless_symbols):
         guard.call(q, timeout=2.0)
     p6 = LLOneParser(g6)
     evs.append(dict(_dict_event("get_first_set", G, guard.call(p6.get_first_set)), aged="grammar queried first"))
@@ -151,6 +151,12 @@ def replay(case):
         r = guard.call(LLOneParser(g).get_llone_parse_tree, list(w), timeout=2.0)
         results.append("tree" if r[0] == "ok" else (r[1] if r[0] == "exc" else "Timeout"))
     evs.append({"op": "llone_parse", "G": G, "L": case["L"], "words": [cfgh.tagw(w) for w in words], "results": results})
+    results6 = []
+    for w in words[:40]:
+        r = guard.call(LLOneParser(g6).get_llone_parse_tree, list(w), timeout=2.0)
+        results6.append("tree" if r[0] == "ok" else (r[1] if r[0] == "exc" else "Timeout"))
+    evs.append({"op": "llone_parse", "G": G, "L": case["L"], "words": [cfgh.tagw(w) for w in words[:40]], "results": results6,
+                "aged": "grammar queried first"})
     return evs
 
 
